@@ -84,7 +84,7 @@ def bounds(tier):
 
 
 def plan(tier, seed):
-    ch = [{'k': 'words'}, {'k': 'flags'}, {'k': 'types'}, {'k': 'registry'}, {'k': 'maint'}, {'k': 'summary'}, {'k': 'many'}]
+    ch = [{'k': 'words'}, {'k': 'flags'}, {'k': 'types'}, {'k': 'registry'}, {'k': 'maint'}, {'k': 'summary'}, {'k': 'many'}, {'k': 'layout'}]
     for i in range(len(SEQ) + 1):
         ch.append({'k': 'seq', 'first': i})
     if tier == 'quick':
@@ -116,7 +116,44 @@ def classify(case, msgs):
     return 'C03:' + first.split(':')[0][:60]
 
 
+def _layout_section(kind, pos):
+    if kind in ('PS', 'SS'):
+        words = [(w + 0x01010101 * pos) & 0xFFFFFFFF for w in pelgen.SRC_DEFAULT_WORDS]
+        words[0] = pelgen.SRC_DEFAULT_WORDS[0]
+        return {'t': kind, 'ascii': ('BD8D%04X' % (0x2000 + pos)).ljust(32), 'words': words,
+                'callouts': [SEQ[(pos * 3 + i) % len(SEQ)] for i in range(pos % 3 + 1)]}
+    if kind == 'UD':
+        return {'t': 'UD', 'comp': 0xABC0 + pos, 'sub': 4, 'payload': bytes([0x70 + pos] * (4 + pos)).hex()}
+    return {'t': 'MT', 'mtm': 'MT-POS-%d' % pos, 'sn': 'BETWEEN-SRC%d' % pos}
+
+
+def _eval_layout(case):
+    """Every primary or secondary SRC section of a log, wherever it stands: several secondary SRCs, next to each other or
+    with other sections in between, each shown in its place with its own words, flags and callouts."""
+    impl.ensure(False)
+    secs = [_layout_section(k, pos) for pos, k in enumerate(case['layout'])]
+    p = pelgen.pel_from_spec({'creator': 'O', 'sections': secs})
+    r = decode.parse(pelgen.encode_pel(p))
+    if r['kind'] != 'doc':
+        return [{'key': 'C03:not-decoded', 'what': 'well-formed PEL gave %s %s %s' % (r['kind'], r.get('type'), r.get('msg')), 'case': case}]
+    doc = r['doc']
+    want = pelgen.expected_keys(p)
+    msgs = []
+    if list(doc.keys()) != want:
+        msgs.append('keys: %r, expected %r' % (list(doc.keys()), want))
+    else:
+        from calloutparsers.ocallouts.ocallouts import procedures
+        env = {'registry': None, 'plugins': True, 'compnames': None, 'maint': procedures}
+        for sec, k in zip(secs, want[2:]):
+            msgs.extend('%s: %s' % (k, x) for x in pelgen.check_entry(sec, doc[k], 'O', env))
+    if msgs:
+        return [{'key': 'C03:' + msgs[0].split(':')[0].rstrip(' 0123456789'), 'what': '; '.join(msgs[:3]), 'case': case}]
+    return []
+
+
 def eval_case(case):
+    if 'layout' in case:
+        return _eval_layout(case)
     reg = bool(case.get('reg'))
     impl.ensure(reg)
     creator = case.get('creator', 'O')
@@ -177,6 +214,19 @@ def run_chunk(chunk):
         return routed
     res = ChunkResult()
     k = chunk['k']
+    if k == 'layout':
+        for n in (1, 2, 3, 4):
+            for tail in itertools.product(['SS', 'UD', 'MT'], repeat=n):
+                if tail.count('SS') < 1:
+                    continue
+                for first in (['PS'], []):
+                    case = {'layout': first + list(tail)}
+                    core.arm()
+                    vs = eval_case(case)
+                    core.disarm()
+                    res.case(nontrivial_key=json.dumps(case), outcome=vs[0]['key'] if vs else 'ok', sample=case if res.evals % 37 == 1 else None)
+                    res.add(vs)
+        return res
     if k == 'words':
         for t in ('PS', 'SS'):
             for typ in ('BD8D', 'BC8A', 'B700'):
